@@ -8,6 +8,7 @@ import (
 	"bytes"
 	"fmt"
 	"os"
+	"strconv"
 
 	"pgregory.net/rapid"
 )
@@ -16,7 +17,7 @@ import (
 type Mix struct {
 	InsertNew, Overwrite, DeletePresent, DeleteAbsent, SearchPresent, SearchAbsent int
 	Range, Prefix, TopBottom, Extremes, Scan, Size, Iter                           int
-	BulkInsert, BulkDelete, DeleteAll, GC                                          int
+	BulkInsert, BulkDelete, DeleteAll, GC, Audit                                   int
 }
 
 // PropSpec describes one history-shaped property check.
@@ -70,6 +71,10 @@ func newHistory(t *rapid.T, spec *PropSpec) *History {
 		h.trace.Kinds = append(h.trace.Kinds, k.Name())
 	}
 	h.eng = NewEngine(h.cfg, kinds)
+	if cfg.AuditEvery > 1 {
+		h.eng.AuditPhase = drawInt(t, 0, cfg.AuditEvery-1, "auditphase")
+		h.trace.Params = map[string]string{"audit_phase": strconv.Itoa(h.eng.AuditPhase)}
+	}
 	for _, k := range kinds {
 		profs := spec.Profiles
 		if k.Family() == "collation" {
@@ -414,7 +419,7 @@ func (h *History) step(t *rapid.T) {
 	s := h.eng.slots[ti]
 	m := h.spec.Mix
 	ws := []int{m.InsertNew, m.Overwrite, m.DeletePresent, m.DeleteAbsent, m.SearchPresent, m.SearchAbsent,
-		m.Range, m.Prefix, m.TopBottom, m.Extremes, m.Scan, m.Size, m.Iter, m.BulkInsert, m.BulkDelete, m.DeleteAll, m.GC}
+		m.Range, m.Prefix, m.TopBottom, m.Extremes, m.Scan, m.Size, m.Iter, m.BulkInsert, m.BulkDelete, m.DeleteAll, m.GC, m.Audit}
 	if !s.kind.HasRange() {
 		ws[6] = 0
 	}
@@ -465,6 +470,7 @@ func (h *History) step(t *rapid.T) {
 		for _, k := range h.unis[ti].bulk(t, n) {
 			h.emit(t, Op{T: ti, Op: "insert", K: k, V: h.value(), Note: "bulk"})
 		}
+		h.emit(t, Op{T: ti, Op: "audit", Note: "peak"})
 	case 14:
 		n := pick(t, []int{2, 5, 13, 17, 33, 49, 64}, "bulkd")
 		es := s.model.Sorted()
@@ -497,6 +503,8 @@ func (h *History) step(t *rapid.T) {
 	case 16:
 		h.emit(t, Op{T: ti, Op: "gc"})
 		h.emit(t, Op{T: ti, Op: "gccheck"})
+	case 17:
+		h.emit(t, Op{T: ti, Op: "audit"})
 	}
 }
 
@@ -590,14 +598,12 @@ func (h *History) runTemplate(t *rapid.T) {
 		var ks [][]byte
 		for i := 0; i < n; i++ {
 			b := byte(first + i)
-			if b == 0 && s.kind.Family() == "alpha" {
-				continue
-			}
 			ks = append(ks, append(append(clone(stem), b), 'k'))
 		}
 		for _, k := range ks {
 			ins(k, "tpl:fan-up")
 		}
+		h.emit(t, Op{T: ti, Op: "audit", Note: "tpl:peak"})
 		keep := pick(t, []int{0, 1, 2, 3, 4, 12, 13, 37, 38}, "fu_keep")
 		order := drawInt(t, 0, 2, "fu_order")
 		for i := 0; i < len(ks)-keep; i++ {
@@ -614,6 +620,7 @@ func (h *History) runTemplate(t *rapid.T) {
 			}
 			h.emit(t, Op{T: ti, Op: "delete", K: ks[j], Note: "tpl:fan-down"})
 		}
+		h.emit(t, Op{T: ti, Op: "audit", Note: "tpl:trough"})
 	case "prefixsibling":
 		// siblings with identical continuation below different branch bytes
 		pl := pick(t, []int{0, 3, 10, 11, 14}, "ps_pl")
@@ -686,6 +693,7 @@ func (h *History) numTemplate(t *rapid.T, ti int, name string) {
 		for _, k := range ks {
 			h.emit(t, Op{T: ti, Op: "insert", K: k, V: h.value(), Note: "tpl:fan-up"})
 		}
+		h.emit(t, Op{T: ti, Op: "audit", Note: "tpl:peak"})
 		keep := pick(t, []int{0, 1, 2, 3, 4, 12, 13, 37, 38}, "fu_keep")
 		rev := drawInt(t, 0, 1, "fu_rev") == 1
 		for i := 0; i < len(ks)-keep; i++ {
@@ -695,6 +703,7 @@ func (h *History) numTemplate(t *rapid.T, ti int, name string) {
 			}
 			h.emit(t, Op{T: ti, Op: "delete", K: ks[j], Note: "tpl:fan-down"})
 		}
+		h.emit(t, Op{T: ti, Op: "audit", Note: "tpl:trough"})
 	case "emptied":
 		n := drawInt(t, 1, 6, "em_n")
 		var ks [][]byte
